@@ -62,6 +62,19 @@ def generate(rng, tier):
         es = [reg[0] + rng.randint(-over * lat, int(ew * lat) + over * lat) / lat for _ in range(npts)]
         ns = [reg[2] + rng.randint(-over * lat, int(nsx * lat) + over * lat) / lat for _ in range(npts)]
         shape2d = [npts] if (npts % 2 or rng.random() < 0.6) else [2, npts // 2]
+        if rng.random() < 0.1:
+            # single-precision survey files: decimal positions stored as float32 (the values ARE the float32 numbers), decimal centre and sizes;
+            # membership is about those values, whatever the width of the array's dtype
+            es = [float(np.float32(rng.randint(-60, 60) / 10.0)) for _ in range(npts)]
+            ns = [float(np.float32(rng.randint(-60, 60) / 10.0)) for _ in range(npts)]
+            if rng.random() < 0.6:
+                center = (rng.randint(-30, 30) / 10.0, rng.randint(-30, 30) / 10.0)
+                sizes = [rng.randint(0, 40) / 5.0 for _ in range(rng.randint(1, 6))]
+                cs.append(mk_exp(es, ns, shape2d, center, sizes, "expanding-float32"))
+            else:
+                size = rng.choice([0.4, 1.0, 1.2, 2.0, 2.6])
+                cs.append(mk_roll(es, ns, shape2d, size, [-6.5, 6.5, -6.5, 6.5], None, rng.choice([size, size / 2, 1.3]), "spacing", False, "rolling-float32"))
+            continue
         if rng.random() < 0.25:
             center = (reg[0] + ew * rng.randint(-2, 10) / 8.0, reg[2] + nsx * rng.randint(-2, 10) / 8.0)
             sizes = [rng.randint(0, 4 * int(max(ew, nsx) + 1)) / 4.0 for _ in range(rng.randint(1, 6))]
@@ -120,6 +133,10 @@ def impl(case):
         # history: the very same array OBJECTS were used in an earlier call while they held other positions (a pre-allocated buffer
         # refilled in place); the result must be about what the arrays hold NOW
         e, n = np.array(e), np.array(n)
+        if case["kind"].endswith("-float32"):
+            e, n = e.astype(np.float32), n.astype(np.float32)
+            if not (np.array_equal(e.astype(float), np.array(es).reshape(shape2d)) and np.array_equal(n.astype(float), np.array(ns).reshape(shape2d))):
+                raise C.Infra("float32 case with values that are not float32 numbers")
         keep_e, keep_n = e.copy(), n.copy()
         e[...] = keep_e[::-1] * 0.5 - 3.0 if e.ndim == 1 else keep_e * 0.5 - 3.0
         n[...] = keep_n * -2.0 + 1.0
@@ -141,6 +158,8 @@ def impl(case):
     e = C.mkarr(es, shape2d, "es:" + case["op"])
     n = C.mkarr(ns, shape2d, "ns:" + case["op"])
     e, n = np.array(e), np.array(n)
+    if case["kind"].endswith("-float32"):
+        e, n = e.astype(np.float32), n.astype(np.float32)
     keep_e, keep_n = e.copy(), n.copy()
     e[...] = keep_e * 0.5 - 3.0          # same objects, other positions, earlier call (see expanding_window above)
     n[...] = keep_n * -2.0 + 1.0
@@ -172,6 +191,21 @@ def impl(case):
 def _margin_ok(es, ns, k, cx, cy, half, scale):
     m = min(abs(abs(es[k] - cx) - half), abs(abs(ns[k] - cy) - half))
     return m <= 1e-9 * scale
+
+
+def _undecidable(es, ns, k, cx, cy, half, scale):
+    """For the oracle, which knows the implementation's own (float) centre: a disagreement about point k is below the resolution of
+    float arithmetic only if the point is within round-off of an edge WITHOUT being exactly on it.  A point whose float coordinates
+    lie exactly on the edge of the closed square (|x - cx| = half exactly, a representable number, so the float subtraction is exact)
+    and not outside in the other direction belongs to the window, with no tolerance."""
+    if not _margin_ok(es, ns, k, cx, cy, half, scale):
+        return False
+    dx, dy, h = abs(C.fq(es[k]) - C.fq(cx)), abs(C.fq(ns[k]) - C.fq(cy)), C.fq(half)
+    tol = C.fq(1e-9 * scale)
+    on_or_clearly_in = lambda d: d == h or d < h - tol  # noqa: E731
+    if on_or_clearly_in(dx) and on_or_clearly_in(dy):
+        return False          # exactly decidable: inside
+    return True
 
 
 def _cmp_windows(es, ns, iw, mw, centres, halves):
@@ -256,7 +290,7 @@ def oracle(case, io):
         for w, (s, idx) in enumerate(zip(sizes, io)):
             exp = [k for k in range(len(es)) if abs(es[k] - center[0]) <= s / 2 and abs(ns[k] - center[1]) <= s / 2]
             if idx != exp:
-                bad = [k for k in set(idx) ^ set(exp) if not _margin_ok(es, ns, k, center[0], center[1], s / 2, scale)]
+                bad = [k for k in set(idx) ^ set(exp) if not _undecidable(es, ns, k, center[0], center[1], s / 2, scale)]
                 if bad:
                     return f"size {s}: selected {idx}, but the points within half the size of {center} are {exp}"
         for i, s1 in enumerate(sizes):
@@ -292,7 +326,7 @@ def oracle(case, io):
         cy, cx = north[w // len(east)], east[w % len(east)]
         exp = [k for k in range(len(es)) if abs(es[k] - cx) <= half and abs(ns[k] - cy) <= half]
         if idx != exp:
-            bad = [k for k in set(idx) ^ set(exp) if not _margin_ok(es, ns, k, cx, cy, half, scale)]
+            bad = [k for k in set(idx) ^ set(exp) if not _undecidable(es, ns, k, cx, cy, half, scale)]
             if bad:
                 return f"window {w} centred {(cx, cy)} size {size}: selected {idx}, points inside the closed square are {exp}"
     # coverage
